@@ -131,7 +131,7 @@ type c15scn struct {
 	trigger    string // shutdown starts when: "started:<path>" handler of path has started; "resp:<conn>:<n>" conn has n complete responses
 	closeOnSD  bool
 	idleTO     time.Duration
-	size       byte // 0/'S': bound 1 quick, 2 thorough; 'M': 1, 1; 'L' (two connections): 0 quick, 1 thorough
+	size       byte // 0/'S': bound 1 quick, 2 thorough; 'M': 1, 1; 'L' (two connections): 0 quick, 1 thorough; 'Z' (two connections): 0, 0
 	twoCycles  bool // the Server has been through a complete Serve/Shutdown cycle before the scenario proper
 	wcap0      bool // unbuffered worker hand-off channel (what a GOMAXPROCS=1 process uses)
 }
@@ -663,7 +663,8 @@ func TestVerif_C15(t *testing.T) {
 		c15scn{size: 'M', name: "perip0/idle-after-plain-then-timeout-error/bg", scripts: one(plainTE), trigger: "resp:0:2"},
 		c15scn{size: 'M', name: "perip0/idle-after-timeouthandler/bg", scripts: one(afterTH), trigger: "resp:0:1"},
 		c15scn{size: 'M', name: "perip0/timeouthandler-waiting/bg", scripts: one([]c15step{W("/th1"), E}), trigger: "started:/th1"},
-		c15scn{name: "perip0/pipelined-timeout-error/bg", scripts: one([]c15step{W("/te1", "/b2"), E}), trigger: "started:/te1"},
+		c15scn{size: 'M', name: "perip0/pipelined-timeout-error/bg", scripts: one([]c15step{W("/te1", "/b2"), E}), trigger: "started:/te1"},
+		c15scn{size: 'Z', name: "perip0/idle+idle-after-timeout-error/bg", scripts: [][]c15step{idle, {W("/te2"), R(1), E}}, trigger: "resp:1:1"},
 		c15scn{size: 'M', name: "perip0/late-request-after-timeout-error/bg", scripts: one(lateTE), trigger: "resp:0:1"},
 	)
 	list = append(list,
@@ -686,7 +687,6 @@ func TestVerif_C15(t *testing.T) {
 			c15scn{size: 'M', name: "perip1/idle-after-timeouthandler/ctx1s", perIP: 1, scripts: one(afterTH), trigger: "resp:0:1", ctxTimeout: time.Second},
 			c15scn{size: 'M', name: "perip1/idle-after-timeout-error-idletimeout/ctx1s", perIP: 1, scripts: one(afterTE), trigger: "resp:0:1", ctxTimeout: time.Second, idleTO: 30 * time.Second},
 			c15scn{size: 'M', twoCycles: true, name: "second-cycle/perip0/idle-after-timeout-error/bg", scripts: one(afterTE), trigger: "resp:0:1"},
-			c15scn{size: 'L', name: "perip0/idle+idle-after-timeout-error/bg", scripts: [][]c15step{idle, {W("/te2"), R(1), E}}, trigger: "resp:1:1"},
 			c15scn{size: 'L', name: "perip0/slow+pipelined/bg", scripts: [][]c15step{{W("/slow0"), E}, {W("/slow1", "/b2"), E}}, trigger: "started:/slow1"},
 			c15scn{size: 'L', name: "perip1/idle+pipelined/ctx1s", perIP: 1, scripts: [][]c15step{idle, pipe}, trigger: "started:/slow1", ctxTimeout: time.Second},
 		)
@@ -702,6 +702,8 @@ func TestVerif_C15(t *testing.T) {
 			bb = 1
 		case 'L':
 			bb = b - 1
+		case 'Z':
+			bb = 0
 		}
 		if forced {
 			bb = b
